@@ -42,7 +42,25 @@ def check_arrays(ctx, name, rates2d, counts2d, dtype="float"):
         ctx.count("integer_dtype_arrays")
     r_f = numpy.array(rates2d, dtype=float)
     c_f = numpy.array(counts2d, dtype=float)
-    return _check_arrays(ctx, name, r, c, r_f, c_f)
+    if dtype in ("readonly", "fortran", "strided"):
+        # the same float64 values as read-only arrays / in Fortran order / as a strided view into a larger array
+        ctx.count("arrays_as:" + dtype)
+        if dtype == "readonly":
+            r.setflags(write=False)
+            c.setflags(write=False)
+        elif dtype == "fortran":
+            r, c = numpy.asfortranarray(r), numpy.asfortranarray(c)
+        else:
+            def view(a):
+                big = numpy.full(tuple(2 * k + 1 for k in a.shape), 0.123)
+                sl = tuple(slice(1, None, 2) for _ in a.shape)
+                big[sl] = a
+                return big[sl]
+            r, c = view(r), view(c)
+    _check_arrays(ctx, name, r, c, r_f, c_f)
+    # both functions read their arguments; the caller's arrays are as they were
+    if not (numpy.array_equal(numpy.asarray(r, dtype=float), r_f) and numpy.array_equal(numpy.asarray(c, dtype=float), c_f)):
+        ctx.violation(name + "callers_arrays_modified", {"shape": list(r_f.shape)})
 
 
 def _check_arrays(ctx, name, r_in, c_in, r, c):
@@ -176,7 +194,7 @@ def cases(draw):
             n = int(numpy.prod(shape))
             rates = draw(G.rate_arrays(n, lo=-9, hi=-6))
             counts = [draw(st.sampled_from([1, 1, 2, 0])) for _ in range(n)]
-        dt = draw(st.sampled_from(["float", "float", "float", "int"]))      # the docstrings say "Numpy Array": lists are not in the domain
+        dt = draw(st.sampled_from(["float", "float", "float", "int", "readonly", "fortran", "strided"]))      # the docstrings say "Numpy Array": lists are not in the domain
         if dt == "int":
             rates = [float(draw(st.integers(0, 6))) for _ in range(n)]      # whole expected counts in an integer array
             if not any(rates):
